@@ -2,6 +2,7 @@ package harness
 
 import (
 	"fmt"
+	"reflect"
 	"sort"
 	"time"
 
@@ -83,6 +84,50 @@ func init() {
 			// local data updates
 			var dops []*dataOp
 			dataTask(w, "data0", pr.Servers, 2+w.T.Choose(5, "ndata"), &dops, nil)
+			// local updates that change every stored item in place (no identifier, no selector) while
+			// peers read the same functions (the reply is encoded after all locks are released)
+			api1("data-in-place", func() {
+				s := pr.Servers[w.T.Choose(len(pr.Servers), "in-place-feature")]
+				if len(s.Funcs) == 0 {
+					return
+				}
+				fn := s.Funcs[w.T.Choose(len(s.Funcs), "in-place-function")]
+				info, ok := fnByName[fn.Fn]
+				if !ok || !info.IsList {
+					return
+				}
+				item := w.GenItem(info.ItemType, nil, 1, 2, nil)
+				_ = s.F.UpdateData(fn.Fn, GenList(info, []reflect.Value{item}), model.NewFilterTypePartial(), nil)
+				w.Probe("c17-in-place-update")
+			})
+			for _, p := range pr.Peers {
+				p := p
+				w.Go("reads:"+p.Name, func() {
+					p.AwaitDiscovery()
+					for i := 2 + w.T.Choose(5, "nreads"); i > 0; i-- {
+						if p.Conn.Closed {
+							return
+						}
+						s := pr.Servers[w.T.Choose(len(pr.Servers), "read-feature")]
+						if len(s.Funcs) == 0 {
+							continue
+						}
+						fn := s.Funcs[w.T.Choose(len(s.Funcs), "read-function")]
+						info, ok := fnByName[fn.Fn]
+						if !ok {
+							continue
+						}
+						cmd := model.CmdType{}
+						cmd.SetDataForFunction(fn.Fn, reflect.New(info.DataType).Interface())
+						cf := a.clientFor(p, s)
+						c := p.SendCmd(cf.Address(), s.Address(), model.CmdClassifierTypeRead, nil, cmd, "read")
+						if w.T.Bool(1, 2, "await-read") {
+							p.Await(c)
+						}
+						w.Probe("c17-peer-read")
+					}
+				})
+			}
 			// use case changes on two entities
 			api1("usecases", func() {
 				e := pr.Ents[w.T.Choose(len(pr.Ents), "uc-entity")]
